@@ -41,3 +41,83 @@ pub fn any_len(max: usize) -> usize {
     kani::assume(len <= max);
     len
 }
+
+// ---------------------------------------------------------------------------
+// A FontTableProvider that serves five small tables (cmap format 4 mapping U+25CC, head,
+// maxp with 8 glyphs, hhea with 2 hMetrics, hmtx) and optionally claims a glyf table, so
+// that Font::new runs the real loading code without a file parsing pipeline (C02, C03).
+// ---------------------------------------------------------------------------
+use allsorts::error::ParseError;
+use allsorts::tables::FontTableProvider;
+use std::borrow::Cow;
+
+const CMAP: u32 = 0x636D_6170;
+const HEAD: u32 = 0x6865_6164;
+const MAXP: u32 = 0x6D61_7870;
+const HHEA: u32 = 0x6868_6561;
+const HMTX: u32 = 0x686D_7478;
+const GLYF: u32 = 0x676C_7966;
+
+pub struct Provider {
+    pub cmap: [u8; 12 + 32],
+    head: [u8; 54],
+    maxp: [u8; 6],
+    hhea: [u8; 36],
+    hmtx: [u8; 8],
+    pub has_glyf: bool,
+}
+
+impl FontTableProvider for Provider {
+    fn table_data(&self, tag: u32) -> Result<Option<Cow<'_, [u8]>>, ParseError> {
+        Ok(match tag {
+            CMAP => Some(Cow::Borrowed(&self.cmap[..])),
+            HEAD => Some(Cow::Borrowed(&self.head[..])),
+            MAXP => Some(Cow::Borrowed(&self.maxp[..])),
+            HHEA => Some(Cow::Borrowed(&self.hhea[..])),
+            HMTX => Some(Cow::Borrowed(&self.hmtx[..])),
+            _ => None,
+        })
+    }
+
+    fn has_table(&self, tag: u32) -> bool {
+        matches!(tag, CMAP | HEAD | MAXP | HHEA | HMTX) || (tag == GLYF && self.has_glyf)
+    }
+
+    fn table_tags(&self) -> Option<Vec<u32>> {
+        None
+    }
+}
+
+pub fn provider(has_glyf: bool, dotted_circle_gid: u16) -> Provider {
+    // cmap: one (3,1) encoding record -> format 4 with segments [0x25CC..0x25CC], [0xFFFF..0xFFFF]
+    let mut cmap = [0u8; 44];
+    put16(&mut cmap, 2, 1);
+    put16(&mut cmap, 4, 3);
+    put16(&mut cmap, 6, 1);
+    put32(&mut cmap, 8, 12);
+    let s = 12;
+    put16(&mut cmap, s, 4);
+    put16(&mut cmap, s + 2, 32);
+    put16(&mut cmap, s + 6, 4); // segCountX2
+    put16(&mut cmap, s + 14, 0x25CC); // endCode[0]
+    put16(&mut cmap, s + 16, 0xFFFF);
+    put16(&mut cmap, s + 20, 0x25CC); // startCode[0]
+    put16(&mut cmap, s + 22, 0xFFFF);
+    put16(&mut cmap, s + 24, dotted_circle_gid.wrapping_sub(0x25CC)); // idDelta[0]
+    put16(&mut cmap, s + 26, 1);
+    let mut head = [0u8; 54];
+    put16(&mut head, 0, 1);
+    put32(&mut head, 12, 0x5F0F_3CF5);
+    put16(&mut head, 18, 1000);
+    let mut maxp = [0u8; 6];
+    put32(&mut maxp, 0, 0x0000_5000);
+    put16(&mut maxp, 4, 8);
+    let mut hhea = [0u8; 36];
+    put16(&mut hhea, 0, 1);
+    put16(&mut hhea, 34, 2);
+    let mut hmtx = [0u8; 8];
+    put16(&mut hmtx, 0, 500);
+    put16(&mut hmtx, 4, 600);
+    Provider { cmap, head, maxp, hhea, hmtx, has_glyf }
+}
+
